@@ -519,10 +519,18 @@ func init() {
 	}
 }
 
+var sibHooks = []siblingPair{
+	{A: "database.(*Controller).runPostGetHooks", B: "database.(*Controller).runPrePutHooks", Rename: map[string]string{"UsesPostGet": "UsesPrePut", "Hook.PostGet": "Hook.PrePut"}, Why: "hook phases"},
+}
+
+func init() {
+	sibDatabase = append(sibDatabase, siblingPair{A: "database.Maintain", B: "database.MaintainThorough", Rename: map[string]string{"Controller.Maintain": "Controller.MaintainThorough"}, Why: "maintenance entry points"})
+}
+
 var allSiblingPairs []siblingPair
 
 func probeSiblings(c *Ctx) {
-	for _, ps := range [][]siblingPair{sibConfig, sibMicro, sibDatabase, sibAccessor, sibSetters, sibDSD, sibAuth, sibQuery, sibRecord, sibGetters, sibLog} {
+	for _, ps := range [][]siblingPair{sibConfig, sibMicro, sibDatabase, sibAccessor, sibSetters, sibDSD, sibAuth, sibQuery, sibRecord, sibGetters, sibLog, sibHooks} {
 		allSiblingPairs = append(allSiblingPairs, ps...)
 	}
 	for _, p := range allSiblingPairs {
